@@ -129,6 +129,12 @@ Theorem no_lost_wakeup_workers bodies progs n q sched :
   Nat.min (length (pending (sg s))) (limit (sp s) - busy (sp s)) <= sumf nanb (st s) + sumf npsig (st s).
 Proof. intros Hp Hn s. exact (lv_pop _ _ (live_reachable bodies progs n q sched Hp Hn)). Qed.
 
+Theorem no_lost_wakeup_pushers bodies progs n q sched t x :
+  progs <> [] -> 1 <= n ->
+  let s := reach true bodies progs n q sched in
+  nth_error (st s) t = Some x -> pw_ok (sp s) (sumf npendb (st s)) x = true.
+Proof. intros Hp Hn s. exact (lv_push _ _ (live_reachable bodies progs n q sched Hp Hn) t x). Qed.
+
 (* ---- deadlock freedom ---- *)
 Definition lockpc (c : pc) : bool := match c with PLock _ _ | JLock | RLock _ | FLock | WLock | WLock2 => true | _ => false end.
 
